@@ -1,5 +1,6 @@
 pub mod c01;
 pub mod c04;
+pub mod c05;
 pub mod c06;
 pub mod c11;
 pub mod c12;
@@ -7,6 +8,7 @@ pub mod c14;
 pub mod c15;
 pub mod c16;
 pub mod c17;
+pub mod c19;
 pub mod c20;
 pub mod tamper;
 pub mod worldmon;
@@ -29,8 +31,10 @@ pub fn run(a: &Args) -> Result<ShardOut, String> {
         "C01" => Ok(c01::run(a)),
         "C16" => Ok(c16::run(a)),
         "C17" => Ok(c17::run(a)),
+        "C19" => Ok(c19::run(a)),
         "C20" => Ok(c20::run(a)),
         "C02" => Ok(worldmon::run_c02(a)),
+        "C05" => Ok(c05::run(a)),
         "C06" => Ok(c06::run(a)),
         "C07" => Ok(worldmon::run_c07(a)),
         "C08" => Ok(worldmon::run_c08(a)),
